@@ -153,6 +153,19 @@ class Ctx:
         for i, t in enumerate(printed):
             b = blocks[i] if i < len(blocks) else "?"
             self.trusted.append(f"{t}: " + " ".join(b.split()))
+        if self.tier == "thorough" and not self.scratch_repo:
+            # independent re-check of the compiled property file and everything it depends on
+            cmd = ["coqchk", "-silent", "-o", "-Q", THEORIES, "JV", "JV.Properties." + name]
+            self.checker_cmds.append("coqchk -silent -o -Q coq/theories JV JV.Properties." + name)
+            try:
+                rc2, out2, err2 = sh(cmd, timeout=1800, cwd=COQ)
+            except subprocess.TimeoutExpired:
+                rc2, out2, err2 = 124, "", "coqchk timeout"
+            if rc2 != 0:
+                self.broken.append(f"coqchk rejects Properties/{name}.vo: " + (err2.strip().splitlines() or ["?"])[-1][:300])
+            else:
+                summ = out2[out2.find("CONTEXT SUMMARY"):] if "CONTEXT SUMMARY" in out2 else out2[-600:]
+                self.trusted.append(f"coqchk -o {name}: " + " ".join(summ.split()))
         return True
 
     def coq_obligation(self, name, vtext, n_obligations=1, timeout=600):
